@@ -6,7 +6,7 @@ from harness.common import Broken, COQ, REPO
 from translator import pygen
 
 PID = "C19"
-GENS = ["GenIter"]
+GENS = ["GenIter", "GenRegistry"]
 
 
 def jobs_for(ctx, n):
@@ -31,7 +31,65 @@ def jobs_for(ctx, n):
                 reqs.append({"iface": iface, "split": 0, "shuffle": sh, "repeat": True, "file_parallelism": 2, "epochs": 3, "extra": 1, "pairing": True,
                              "pair": {"iface": iface, "split": 1, "shuffle": sh, "repeat": True, "file_parallelism": 2, "take": 10}})
         jobs.append({"dataset": spec, "requests": reqs})
+    # any number of streams alive at once, pulled and dropped in an arbitrary order (the registry of live Rust iterators; Model/Registry.v)
+    for n in range(ctx.scale(3, 24)):
+        fmt, comp = rng.choice([("fb", ""), ("fb", "LZ4"), ("fb", "GZIP"), ("npz", "")]) if n else ("fb", "")
+        eps = rng.choice([1, 2, 3])
+        spec = {"format": fmt, "compression": comp, "eps": eps, "sessions": [{"kind": "filler", "sub": [], "reopen": False,
+                "ops": [W(0)] * rng.choice([1, 3, 5]) + [W(1)] * rng.choice([1, 2, 4]) + [W(2)] * rng.choice([1, 2, 3]) + [W(0)] * rng.choice([0, 2])}]}
+        reqs = []
+        for iface in [i for i in iterlib.ifaces_for(spec) if i != "async"]:
+            for _k in range(2 if iface != "rust" else (3 if ctx.quick else 6)):
+                k = rng.choice([2, 2, 3, 4])
+                streams = [{"split": rng.choice([0, 1, 2]), "repeat": rng.random() < 0.7, "shuffle": 0, "file_parallelism": rng.choice([1, 2, 3])} for _ in range(k)]
+                ops = []
+                for _o in range(rng.choice([12, 25, 40])):
+                    ops.append(["A", rng.randrange(k)] if rng.random() < 0.06 else ["P", rng.randrange(k)])
+                reqs.append({"iface": iface, "split": 0, "shuffle": 0, "repeat": True, "multi": {"streams": streams, "ops": ops}, "multi_req": True, "epochs": 0, "extra": 0})
+        jobs.append({"dataset": spec, "requests": reqs})
     return jobs
+
+
+def multi_oracle(q, ans, reference):
+    """The property on several live streams: stream i receives the one-pass sequence of ITS split, repeated; it ends only if it was dropped,
+    or is not repeating and has received its whole pass; it never fails."""
+    m = q["multi"]
+    got = {i: [] for i in range(len(m["streams"]))}
+    dropped = set()
+    for (kind, i), a in zip(m["ops"], ans):
+        st = m["streams"][i]
+        ref = reference[str(st["split"])]["seq"]
+        if kind == "A":
+            dropped.add(i)
+            if a is not None:
+                return f"dropping stream {i} failed: {a}"
+            continue
+        if isinstance(a, str) and a.startswith("error"):
+            return f"stream {i} (split {st['split']}) failed with {a} after {len(got[i])} examples"
+        if a == "stop":
+            if i in dropped or (not st["repeat"] and got[i] == ref):
+                continue
+            return f"stream {i} (split {st['split']}, repeat={st['repeat']}) ended after {got[i]} although it was not dropped; its split holds {ref}"
+        if i in dropped:
+            return f"stream {i} was dropped but still delivers {a}"
+        pos = len(got[i])
+        if (not st["repeat"] and pos >= len(ref)) or a != ref[pos % len(ref)]:
+            return (f"stream {i} (split {st['split']}, repeat={st['repeat']}) received {a} at position {pos}; its split holds {ref}"
+                    f"{' (an example of another split)' if a not in ref else ''}")
+        got[i].append(a)
+    return None
+
+
+def registry_model(cases):
+    """cases: [(passes per stream, repeat flags, ops)] -> the model's answers, evaluated by coqc."""
+    body = ["Require Import Sedpack.Model.Base Sedpack.Generated.GenRegistry Sedpack.Model.Registry.", "From Coq Require Import NArith.",
+            "Definition ans (r : option (@res N)) : N * N := match r with Some (Yield e) => (0, e) | Some Stop => (1, 0) | Some Panic => (2, 0) | Some OutOfFuel => (3, 0) | None => (4, 0) end%N.",
+            "Definition go (ps : list (list N)) (rp : list bool) (ops : list op) : list (N * N) :=",
+            "  map ans (snd (run (fun n => n) (init (fun i _ => nth i ps []) (fun i => nth i rp false)) ops))."]
+    for ps, rp, ops in cases:
+        body.append("Eval vm_compute in go " + common.clist(ps, lambda l: common.clist(l, lambda x: f"{x}%N")) + " " + common.clist(rp, lambda b: "true" if b else "false")
+                    + " " + common.clist(ops, lambda o: f"{'Pull' if o[0] == 'P' else 'Abandon'} {o[1]}") + ".")
+    return common.coq_answers(common.coq_eval(PID, "registry", "\n".join(body) + "\n"))
 
 
 def run(ctx):
@@ -53,8 +111,11 @@ def run(ctx):
         n = len(s["reference"]["0"]["seq"]) if "reference" in s else 1
         for q in j["requests"]:
             q["take"] = q["epochs"] * n + q["extra"]
+            if q.get("multi_req"):
+                q.pop("take")
     res = iterlib.run_jobs(jobs, timeout=60)
     runs, nontrivial = 0, set()
+    nmulti, mcases, mwhere = 0, [], []
     for job, r in zip(jobs, res):
         if "build_error" in r:
             ctx.report("harness", r["build_error"], {"job": job}, found_input=False)
@@ -73,6 +134,16 @@ def run(ctx):
                 ctx.report("iteration-error", f"{q}: {o['error']}", {"job": one})
                 continue
             out = o["out"]
+            if q.get("multi"):
+                nmulti += 1
+                nontrivial.add(json.dumps([job["dataset"]["format"], q["iface"], q["multi"]]))
+                bad = multi_oracle(q, out, r["reference"])
+                if bad:
+                    ctx.report("interleaved-streams-interfere", f"{q['iface']}: {len(q['multi']['streams'])} streams alive at once, ops {q['multi']['ops'][:14]}..: {bad}", {"job": one})
+                if q["iface"] == "rust":
+                    mcases.append(([r["reference"][str(st["split"])]["seq"] for st in q["multi"]["streams"]], [st["repeat"] for st in q["multi"]["streams"]], q["multi"]["ops"]))
+                    mwhere.append((one, out))
+                continue
             if q.get("pair"):
                 out, other = o["out"]
                 ref1 = r["reference"]["1"]["seq"]
@@ -98,7 +169,7 @@ def run(ctx):
                     if sorted(blk) != sorted(ref):
                         ctx.report("rust-epoch-not-a-permutation", f"rust shuffle={q['shuffle']} epoch {e} is {blk[:12]}.. not a permutation of the split", {"job": one, "got": out})
                         break
-    dis, ncomb = 0, 0
+    dis, ncomb, rdis = 0, 0, 0
     if not any(tr.values()):
         try:
             rc, log = common.coq_make(["Model/Iter.vo"])
@@ -107,6 +178,17 @@ def run(ctx):
             sb, rr, _r, br, dis = combinators.check(ctx, PID)
             ncomb = len(sb) + len(rr)
             broken += br
+            rc, log = common.coq_make(["Model/Registry.vo"])
+            if rc:
+                raise Broken("Model/Registry.v no longer compiles against the generated kernel", log[-2000:])
+            code = {0: None, 1: "stop", 2: "error:panic", 3: "error:fuel", 4: None}
+            for (one, out), ma in zip(mwhere, registry_model(mcases) if mcases else []):
+                want = [int(v) if int(c) == 0 else code[int(c)] for c, v in ma]
+                got = [("error:panic" if isinstance(a, str) and a.startswith("error") else a) for a in out]
+                if want != got:
+                    rdis += 1
+                    if rdis <= 2:
+                        broken.append(Broken("correspondence registry model vs the Rust interface (several live streams)", json.dumps({"job": one, "model": want, "impl": out})))
         except Broken as b:
             broken.append(b)
     if broken and not ctx.violations:
@@ -119,11 +201,14 @@ def run(ctx):
         "checker_cmd": "make -C coq Proofs/IterProofs.vo && coqc -Q coq Sedpack coq/Properties/C19.v (Print Assumptions under each theorem)",
         "trusted_base": common.TRUSTED_BASE_COMMON + [
             "itertools.cycle is the periodic stream of its argument (oracle, matched by cycle_source); reading a shard is a function of its path",
-            "the Rust epoch loop (RustGenerator) and tf.data repeat are validated on the implementation only (prefixes of 2-3 epochs)"],
+            "Model/Registry.v transcribes RustGenerator (control flow regenerated from dataset_iteration.py) and the registry of rust/src/lib.rs (pinned text) by hand; hypothesis of its theorems: the random keys never repeat (rand::random::<usize>()); "
+            "an ExampleIterator delivers the examples of its shards in order (C15); the model's answers are compared with the real interface on every multi-stream request",
+            "tf.data repeat is validated on the implementation only (prefixes of 2-3 epochs)"],
         "evaluations": runs + ncomb, "distinct_nontrivial": len(nontrivial) + ncomb,
         "rule": "prefixes of epochs*N+extra examples (epochs 2..3, extra 0..2) of every interface with repeat=True x shuffle in {0,1,2,3,5,40} x file_parallelism in {1..16} on generated datasets; "
-                "unshuffled must equal the one-pass sequence repeated; shuffled must stay inside the split; rust epochs must be permutations",
-        "pipeline_runs": runs, "combinator_cases": ncomb, "model_vs_impl_disagreements": dis, "traces_validated_against_impl": ncomb - dis,
+                "unshuffled must equal the one-pass sequence repeated; shuffled must stay inside the split; rust epochs must be permutations; "
+                "plus 2..4 streams (repeating or not, over different splits) of one interface alive at once, pulled and dropped in random order (12..40 operations)",
+        "multi_stream_requests": nmulti, "registry_model_cases": len(mcases), "registry_model_vs_impl_disagreements": rdis, "pipeline_runs": runs, "combinator_cases": ncomb, "model_vs_impl_disagreements": dis, "traces_validated_against_impl": ncomb - dis + len(mcases) - rdis,
     })
     ctx.assumptions += ["the selected split is non-empty"]
 
@@ -138,6 +223,10 @@ def replay(ctx, rp):
     ref = r["reference"]["0"]["seq"]
     out = o.get("out", [])
     print(json.dumps({"one_pass": ref, "got": out, "error": o.get("error"), "hang": o.get("hang")})[:2000])
+    if q.get("multi"):
+        bad = None if o.get("error") or o.get("hang") else multi_oracle(q, out, r["reference"])
+        print(bad)
+        return not (o.get("error") or o.get("hang") or bad)
     if o.get("error") or o.get("hang") or len(out) != q["take"] or set(out) - set(ref):
         return False
     if q["shuffle"] == 0 and any(x != ref[i % len(ref)] for i, x in enumerate(out)):
